@@ -72,7 +72,7 @@ func (p *RDP) Marshal(o map[string]interface{}) ([]byte, error) {
 
 	for _, key := range keys {
 		v := o[key]
-		if !representable(key) || key == "" || strings.Contains(key, ":") || strings.HasPrefix(key, "#") {
+		if !representable(key) || key == "" || strings.Contains(key, ":") || strings.HasPrefix(key, "#") || strings.HasPrefix(key, "\ufeff") {
 			return nil, fmt.Errorf("error marshalling: setting name %q cannot be written as a line", key)
 		}
 		if s, ok := v.(string); ok && !representable(s) {
@@ -98,7 +98,8 @@ func (p *RDP) Marshal(o map[string]interface{}) ([]byte, error) {
 }
 
 // representable reports whether s survives being written into a name:type:value line and read
-// back: lines end at a line break and the reader trims blanks around every field
+// back: lines end at a line break and the reader trims blanks around every field (a name must
+// not start with a byte order mark either: at the start of the file the reader takes it for one)
 func representable(s string) bool {
 	return !strings.ContainsAny(s, "\r\n") && strings.TrimSpace(s) == s
 }
